@@ -23,13 +23,17 @@ Hold(m, q) == [Act("hold-send") EXCEPT !.kind = m, !.q = q]
 \* releaseResultCaps) inside the transport's send while the hostile message arrives; the driver lets it go afterwards
 LCallC(t) == [Act("l-call") EXCEPT !.h = "boot", !.tag = t, !.kind = "cancellable"]
 LCancel(t) == [Act("l-cancel") EXCEPT !.tag = t]
+LPark(t) == [Act("l-call") EXCEPT !.h = "boot", !.tag = t, !.kind = "parkargs"]
 Prefixes == { <<Boot, Call1, Fin(2, TRUE), Hold("return", 2), Ret1("ok-newcap")>>,
               \* a local call was cancelled and its Finish is still inside the transport's send when the next message arrives
               <<LBoot, PRetBoot, LCallC(101), Hold("finish", 0 - 1), LCancel(101)>>,
               \* an export was created and released again: its id is inside the table but names nothing
               <<Boot, Call1, Ret1("ok-newcap"), Fin(2, TRUE)>>,
               <<>>, <<Boot>>, <<Boot, Call1>>, <<Boot, Call1, Ret1("ok-newcap")>>, <<Boot, Call1c, Ret1("ok-nocap"), Fin(2, FALSE)>>,
-              <<LBoot, PRetBoot>>, <<LBoot, PRetBoot, LCall(101)>>, <<Boot, LBoot, PRetBoot, Call1>> }
+              <<LBoot, PRetBoot>>, <<LBoot, PRetBoot, LCall(101)>>, <<Boot, LBoot, PRetBoot, Call1>>,
+              \* a local call is parked while it builds its parameters: its question exists, its Call is not on the wire yet (the driver
+              \* lets it go once the hostile message is in)
+              <<LBoot, PRetBoot, LPark(101)>> }
 
 H(kind, q, on, n) == [Act("p-raw") EXCEPT !.kind = kind, !.q = q, !.on = on, !.n = n]
 Hostiles == { H("call-unknown-export", 7, 0 - 1, 77), H("call-unknown-answer", 7, 0 - 1, 77), H("call-reused-question", 1, 0 - 1, 0),
@@ -60,7 +64,10 @@ Hostiles == { H("call-unknown-export", 7, 0 - 1, 77), H("call-unknown-answer", 7
               H("call-bad-cap-receiverHosted", 7, 1, 1), H("call-bad-cap-receiverHosted", 7, 0 - 1, 2), H("call-unknown-export", 7, 0 - 1, 1),
               H("release-unknown", 0 - 1, 0 - 1, 1),
               \* a Return for the question the connection opened last (late for a cancelled one, early or duplicate otherwise)
-              H("return-last-question", 0 - 1, 0 - 1, 0), H("return-last-question-exception", 0 - 1, 0 - 1, 0) }
+              H("return-last-question", 0 - 1, 0 - 1, 0), H("return-last-question-exception", 0 - 1, 0 - 1, 0),
+              \* a Return for a question id the peer can predict (ids are reused lowest first) before it has seen the Call
+              H("return-predicted-question", 0 - 1, 0 - 1, 0), H("return-predicted-question", 0 - 1, 0 - 1, 1),
+              H("return-predicted-question-exception", 0 - 1, 0 - 1, 0), H("return-predicted-question-exception", 0 - 1, 0 - 1, 1) }
 
 Probe == << [Act("p-call") EXCEPT !.q = 12, !.on = 1, !.tag = 50, !.kind = "root"], [Act("a-return") EXCEPT !.tag = 50, !.kind = "ok-nocap"],
             [Act("l-bootstrap") EXCEPT !.h = "boot2", !.cap = 9], [Act("l-call") EXCEPT !.h = "boot2", !.tag = 150] >>
